@@ -106,7 +106,11 @@ func build(kind string, rows []row) (interface{}, error) {
 		for i, r := range rows {
 			ss[i] = linearOf(kind == "qmulti", r, fmt.Sprintf("r%d", i))
 		}
-		return multi.NewMulti("m", ss, seq.DefaultConsensus)
+		m, err := multi.NewMulti("m", ss, seq.DefaultConsensus)
+		if m != nil {
+			m.Desc, m.Strand = "a multiple alignment", seq.Minus // annotation of its own, for the clone to carry
+		}
+		return m, err
 	}
 	return nil, fmt.Errorf("unknown kind %q", kind)
 }
@@ -119,6 +123,8 @@ type obs struct {
 	Rows  []row    `json:"rows"`
 	Cols  [][]cell `json:"cols"`
 	Cons  []int    `json:"cons"`
+	ColsL [][]int  `json:"colsl"` // quality alignments: the letters-only column view (letters below the threshold are filtered)
+	Ann   []int    `json:"ann"`   // annotation at the container's own level: strand, conformation, length of the description
 	Panic string   `json:"panic"`
 }
 
@@ -147,7 +153,7 @@ func strandOf(s interface{}) int {
 
 // observe reads the container through its public API only.
 func observe(kind string, c interface{}) (o obs) {
-	o = obs{Rows: []row{}, Cols: [][]cell{}, Cons: []int{}}
+	o = obs{Rows: []row{}, Cols: [][]cell{}, Cons: []int{}, ColsL: [][]int{}, Ann: []int{}}
 	defer func() {
 		if p := recover(); p != nil {
 			o.Panic = fmt.Sprint(p)
@@ -156,18 +162,21 @@ func observe(kind string, c interface{}) (o obs) {
 	q := isQ(kind)
 	switch v := c.(type) {
 	case *linear.Seq:
+		o.Ann = []int{int(v.Strand), int(v.Conform), len(v.Desc)}
 		o.NRows, o.Len, o.Start, o.End = 1, v.Len(), v.Start(), v.End()
 		o.Rows = []row{rowView(v, int(v.Strand), q)}
 		for p := v.Start(); p < v.End(); p++ {
 			o.Cols = append(o.Cols, []cell{{int(v.At(p).L), 0}})
 		}
 	case *linear.QSeq:
+		o.Ann = []int{int(v.Strand), int(v.Conform), len(v.Desc)}
 		o.NRows, o.Len, o.Start, o.End = 1, v.Len(), v.Start(), v.End()
 		o.Rows = []row{rowView(v, int(v.Strand), q)}
 		for p := v.Start(); p < v.End(); p++ {
 			o.Cols = append(o.Cols, []cell{{int(v.At(p).L), int(v.At(p).Q)}})
 		}
 	case *alignment.Seq:
+		o.Ann = []int{int(v.Strand), int(v.Conform), len(v.Desc)}
 		o.NRows, o.Len, o.Start, o.End = v.Rows(), v.Len(), v.Start(), v.End()
 		for i := 0; i < v.Rows(); i++ {
 			r := v.Row(i)
@@ -206,8 +215,15 @@ func observe(kind string, c interface{}) (o obs) {
 				col = append(col, cell{int(ql.L), int(ql.Q)})
 			}
 			o.Cols = append(o.Cols, col)
+			ls := []int{}
+			for _, l := range v.Column(p, true) {
+				ls = append(ls, int(l))
+			}
+			o.ColsL = append(o.ColsL, ls)
 		}
+		o.Ann = []int{int(v.Strand), int(v.Conform), len(v.Desc)}
 	case *multi.Multi:
+		o.Ann = []int{int(v.Strand), int(v.Conform), len(v.Desc)}
 		o.NRows, o.Len, o.Start, o.End = v.Rows(), v.Len(), v.Start(), v.End()
 		for i := 0; i < v.Rows(); i++ {
 			r := v.Row(i)
@@ -568,7 +584,11 @@ func edit(rng *rand.Rand, m *model, kind string, c interface{}) (vt.Ev, interfac
 			if co.Rows == nil {
 				co.Rows = []row{}
 			}
-			return vt.Ev{"op": "cloneprobe", "i": i + 1, "p": p, "c": cl, "cloneobs": co.Rows, "err": es}, c
+			ann := co.Ann
+			if ann == nil {
+				ann = []int{}
+			}
+			return vt.Ev{"op": "cloneprobe", "i": i + 1, "p": p, "c": cl, "cloneobs": co.Rows, "cloneann": ann, "err": es}, c
 		case 4, 5: // AppendColumns, then write into the buffers that were passed in
 			if single {
 				continue
